@@ -1,3 +1,1259 @@
-"""placeholder, replaced below"""
-def rule_a(ctx): pass
-def rule_b(ctx): pass
+"""C05.a loop progress and C05.b cursor discipline for the recursive-descent parser and the tokenizer.
+
+Consumption lattice: 0 / 1 / 2 = "at least that many tokens consumed since the reference point"
+(meet = min). Consumption events:
+  * True edge of a condition `self._match(...)`, `_match_set`, `_match_texts` (+1), `_match_pair`
+    (+2), `_match_text_seq(a, b, ..)` (+number of texts) unless `advance=False`;
+  * True edge of a condition on a call to a *productive* method or on a local bound only from
+    productive calls (`x`, `x is not None`; False edge of `x is None` / `not x`);
+  * a statement calling `self._advance()` / `self._advance(k>0)` / `self._advance_chunk()`;
+  * `self._retreat(<saved>)` resets to 0; `_retreat(self._index - k)` / `_advance(-k)` subtract k.
+A method is *productive* (P) when on every path that returns a possibly-truthy value at least one
+token was consumed; P is the greatest fixpoint over all same-named definitions in every parser
+class (dynamic dispatch resolved by name). Higher-order combinators (`_parse_csv(f)`,
+`_try_parse(f)`, `_parse_wrapped*(f)`, `_parse_wrapped_csv(f)`) are productive when f is.
+
+C05.a: for every `while` loop (and `for .. in iter(f, sentinel)`), starting from the loop head with
+0, every back edge must be reached with >= 1 — or the loop is a recognised non-cursor loop whose
+condition variables are updated on every back-edge path — or it is in the reviewed axiom table.
+C05.b: every `_retreat(v)` takes a local saved from `self._index`; every relative backward move
+by k is dominated by >= k consumed tokens since function entry, or credited by table dispatch;
+`_try_parse` restores in `finally`.
+"""
+
+from __future__ import annotations
+
+import ast
+
+from ..cfg import CFG, Node
+from ..core import Cls, Ctx, Func, Module, call_name, is_self_attr, kwarg, norm, walk_no_nested
+
+MATCH_AMOUNT = {"_match": 1, "_match_set": 1, "_match_texts": 1, "_match_pair": 2}
+COMBINATORS = {"_parse_csv", "_try_parse", "_parse_wrapped", "_parse_wrapped_csv", "_parse_wrapped_id_vars_not_used"}
+CURSOR_NAMES = ("_match", "_advance", "_retreat", "_parse", "_try_parse", "_curr", "_next", "_prev", "_index", "_tokens")
+
+# reviewed axioms: method name -> reason it is productive although the fixpoint cannot derive it
+AXIOM_PRODUCTIVE: dict[str, str] = {}
+# reviewed loops: (module:qualname, normalised loop test) -> reason it terminates
+REVIEWED_LOOPS: dict[tuple[str, str], str] = {
+    ("sqlglot.parser:Parser._parse_column_ops", "self._curr.token_type in self.BRACKETS"):
+        "the body calls _parse_bracket with the current token in BRACKETS: the base definition starts with _match_set(self.BRACKETS) "
+        "(consumes), BigQuery/DuckDB overrides call super() first, and the ClickHouse override either consumes `[ ]` pairs or reaches "
+        "super() without having moved the cursor",
+}
+
+
+class Model:
+    def __init__(self, ctx: Ctx) -> None:
+        self.ctx = ctx
+        repo = ctx.repo
+        base = repo.cls("sqlglot.parser", "Parser")
+        self.classes: list[Cls] = [base] + repo.subclasses(base)
+        self.defs: dict[str, list[tuple[Cls, ast.FunctionDef]]] = {}
+        for c in self.classes:
+            for name, md in c.methods().items():
+                self.defs.setdefault(name, []).append((c, md))
+        self.cfgs: dict[int, CFG] = {}
+        self.P: dict[str, bool] = {}
+        self.why_not: dict[str, str] = {}
+
+    def cfg(self, fn: ast.AST) -> CFG:
+        k = id(fn)
+        if k not in self.cfgs:
+            self.cfgs[k] = CFG(fn)
+        return self.cfgs[k]
+
+    # ---- expression classification -------------------------------------------------------------
+    def call_amount(self, e: ast.AST) -> int:
+        """tokens consumed when the call `e` evaluates truthy"""
+        if isinstance(e, ast.NamedExpr):
+            e = e.value
+        if not isinstance(e, ast.Call):
+            return 0
+        cn = call_name(e) or ""
+        if not cn.startswith("self."):
+            return 0
+        name = cn[5:]
+        adv = kwarg(e, "advance")
+        if name in MATCH_AMOUNT:
+            if adv is not None and not (isinstance(adv, ast.Constant) and adv.value is True):
+                return 0
+            if name == "_match" and len(e.args) >= 2:  # positional advance
+                a = e.args[1]
+                if not (isinstance(a, ast.Constant) and a.value is True):
+                    return 0
+            return MATCH_AMOUNT[name]
+        if name == "_match_text_seq":
+            if adv is not None and not (isinstance(adv, ast.Constant) and adv.value is True):
+                return 0
+            return min(2, len([a for a in e.args if not isinstance(a, ast.Starred)])) or (1 if e.args else 0)
+        if name == "_advance_any":
+            return 1
+        if self.productive_expr(e, {}):
+            return 1
+        return 0
+
+    def productive_strict(self, name: str) -> bool:
+        """productive when raise_error raises (callee runs under _try_parse, i.e. ErrorLevel.IMMEDIATE)"""
+        cache = self.__dict__.setdefault("_strict_cache", {})
+        if name in cache:
+            return cache[name]
+        cache[name] = False
+        ok = bool(self.defs.get(name))
+        saved = self.strict_errors
+        self.strict_errors = True
+        try:
+            for c, md in self.defs.get(name, []):
+                r, _ = self.method_productive(c, md, defaults_only=True)
+                if not r:
+                    r, _ = self.method_productive(c, md)
+                if not r:
+                    ok = False
+                    break
+        finally:
+            self.strict_errors = saved
+        cache[name] = ok
+        return ok
+
+    def productive_callable(self, f: ast.AST, locals_: dict[str, bool]) -> bool:
+        """callable expression f (method reference / lambda) whose truthy result implies consumption"""
+        if isinstance(f, ast.Attribute) and isinstance(f.value, ast.Name) and f.value.id == "self":
+            return self.P.get(f.attr, False) or getattr(self, "P0", {}).get(f.attr, False)
+        if isinstance(f, ast.Lambda):
+            return self.productive_expr(f.body, locals_)
+        if isinstance(f, ast.Call) and (call_name(f) or "").endswith("partial") and f.args:
+            return self.productive_callable(f.args[0], locals_)
+        return False
+
+    def productive_expr(self, e: ast.AST, locals_: dict[str, bool]) -> bool:
+        """truthy value of e implies >= 1 token consumed *by evaluating e*"""
+        if isinstance(e, ast.NamedExpr):
+            return self.productive_expr(e.value, locals_)
+        if isinstance(e, ast.Name):
+            return locals_.get(e.id, False)
+        if isinstance(e, ast.Attribute) and isinstance(e.value, ast.Name) and e.value.id != "self":
+            # x.attr can only be evaluated (truthy or not) on a non-None x
+            return locals_.get(e.value.id, False)
+        if isinstance(e, ast.Constant):
+            return not e.value  # a falsy constant never yields a truthy value
+        if isinstance(e, (ast.List, ast.Tuple, ast.Set)) and not e.elts:
+            return True  # empty display is falsy
+        if isinstance(e, ast.Dict) and not e.keys:
+            return True
+        if isinstance(e, ast.BoolOp) and isinstance(e.values[0], ast.Call) and call_name(e.values[0]) in ("self._advance", "self._advance_chunk") and not e.values[0].args:
+            return True  # the first operand is always evaluated and always consumes
+        if isinstance(e, ast.Call) and call_name(e) in ("ensure_list", "list", "tuple") and len(e.args) == 1:
+            return self.productive_expr(e.args[0], locals_)
+        if isinstance(e, ast.BoolOp):
+            if isinstance(e.op, ast.Or):
+                return all(self.productive_expr(v, locals_) for v in e.values)
+            return any(self.productive_expr(v, locals_) for v in e.values)
+        if isinstance(e, ast.IfExp) and isinstance(e.test, ast.Compare) and len(e.test.ops) == 1 and self._index_cmp(e.test):
+            # explicit progress check: `None if self._index == saved else x` / `x if self._index != saved else None`
+            if isinstance(e.test.ops[0], ast.Eq):
+                return self.productive_expr(e.body, locals_)
+            if isinstance(e.test.ops[0], ast.NotEq):
+                return self.productive_expr(e.orelse, locals_)
+        if isinstance(e, ast.IfExp):
+            return (self._test_implies_consumed(e.test, locals_) or self.productive_expr(e.body, locals_)) and self.productive_expr(e.orelse, locals_)
+        if isinstance(e, ast.Call):
+            cn = call_name(e) or ""
+            if not cn and isinstance(e.func, ast.Attribute) and isinstance(e.func.value, ast.Call) and call_name(e.func.value) == "super":
+                cn = "super()." + e.func.attr
+            if cn.startswith("self."):
+                name = cn[5:]
+                if name in MATCH_AMOUNT or name == "_match_text_seq":
+                    return self.call_amount(e) > 0
+                if name == "_advance_any":
+                    return True
+                if name == "_try_parse" and e.args and isinstance(e.args[0], ast.Attribute) and is_self_attr(e.args[0]):
+                    if self.productive_callable(e.args[0], locals_) or (getattr(self, "solved", False) and self.productive_strict(e.args[0].attr)):
+                        return True
+                if name in COMBINATORS or name.startswith("_parse_wrapped") or name == "_parse_csv":
+                    if e.args:
+                        return self.productive_callable(e.args[0], locals_)
+                    pm = kwarg(e, "parse_method")
+                    return pm is not None and self.productive_callable(pm, locals_)
+                if name == "expression":
+                    return False  # always truthy
+                if self.P.get(name, False):
+                    return True
+                if not e.args and not e.keywords and getattr(self, "P0", {}).get(name, False):
+                    return True  # productive when called with its defaults
+                return self._passthrough_call(name, e, locals_)
+            if cn.startswith("super()."):
+                name = cn[8:]
+                return self.P.get(name, False) or self._passthrough_call(name, e, locals_)
+            if cn in ("t.cast", "cast") and len(e.args) == 2:
+                return self.productive_expr(e.args[1], locals_)
+        return False
+
+    def _test_implies_consumed(self, t_: ast.AST, locals_: dict[str, bool]) -> bool:
+        """the test being true implies a productive value is non-None"""
+        if isinstance(t_, ast.Call) and call_name(t_) == "isinstance" and t_.args:
+            return self.productive_expr(t_.args[0], locals_)
+        if isinstance(t_, ast.Call) and self.call_amount(t_) > 0:
+            return True  # the test itself is a consuming match
+        if isinstance(t_, ast.Name):
+            return locals_.get(t_.id, False)
+        if isinstance(t_, ast.Compare) and len(t_.ops) == 1 and isinstance(t_.ops[0], ast.IsNot) and isinstance(t_.comparators[0], ast.Constant) and t_.comparators[0].value is None:
+            return self.productive_expr(t_.left, locals_)
+        if isinstance(t_, ast.BoolOp) and isinstance(t_.op, ast.And):
+            return any(self._test_implies_consumed(v, locals_) for v in t_.values)
+        return False
+
+    def _passthrough_call(self, name: str, e: ast.Call, locals_: dict[str, bool]) -> bool:
+        """m(arg, ...) where every truthy result of m is either paid for by consumption or is its first argument"""
+        if not getattr(self, "PT", {}).get(name, False):
+            return False
+        arg = e.args[0] if e.args else None
+        if arg is None:
+            for nm, lst in self.defs.items():
+                if nm == name and lst:
+                    params = [a.arg for a in lst[0][1].args.args if a.arg != "self"]
+                    if params:
+                        arg = kwarg(e, params[0])
+        return arg is not None and self.productive_expr(arg, locals_)
+
+    def productive_locals(self, fn: ast.AST) -> dict[str, bool]:
+        """kept for API compatibility: flow-sensitive facts are carried in the dataflow state instead"""
+        return {}
+
+    # ---- dataflow --------------------------------------------------------------------------------
+    # state = (count, pv): count = tokens consumed since the reference point (0/1/2, meet=min);
+    # pv = set of locals v with "v truthy => >= 1 token consumed since the reference point" (meet = intersection)
+    def transfer(self, n: Node, lab, state: tuple[int, frozenset], falsy: frozenset = frozenset()):
+        """returns the state on edge (n, lab), or None when the edge is infeasible because it requires a
+        parameter known to be falsy (call with defaults) to be truthy"""
+        count, pv, fv, curr, saved = state
+        if n.ast is None:
+            return state
+        if falsy and n.kind == "cond" and isinstance(n.ast, ast.Name) and n.ast.id in falsy and lab is True:
+            return None
+        if self.strict_errors and n.kind == "stmt" and isinstance(n.ast, ast.Expr) and isinstance(n.ast.value, ast.Call) and call_name(n.ast.value) == "self.raise_error":
+            return None  # under ErrorLevel.IMMEDIATE (inside _try_parse) raise_error never returns
+        loc = {v: True for v in pv}
+        if n.kind == "cond":
+            e = n.ast
+            gain = 0
+            new_pv = set(pv)
+            target = None
+            inner = e
+            if isinstance(e, ast.NamedExpr) and isinstance(e.target, ast.Name):
+                target, inner = e.target.id, e.value
+                new_pv.discard(target)
+                if count >= 1 or self.productive_expr(inner, loc):
+                    new_pv.add(target)
+            new_fv = set(fv)
+            new_curr = curr
+            if target is not None:
+                new_fv.discard(target)
+            # peek facts: self._match(TokenType.T, advance=False) true => current token is T
+            peek = self._peek_token(inner)
+            if peek is not None:
+                if lab is True:
+                    new_curr = peek
+            elif lab is True and isinstance(inner, ast.Compare) and len(inner.ops) == 1 and isinstance(inner.ops[0], ast.In) and norm(inner.left) == "self._curr.token_type" and is_self_attr(inner.comparators[0]):
+                new_curr = "tbl:" + inner.comparators[0].attr  # current token is a member of that class table
+            elif lab is True and (is_self_attr(inner, "_curr") or (isinstance(inner, ast.Call) and call_name(inner) == "self._is_connected")):
+                if new_curr is None:
+                    new_curr = "<some token>"  # the current token exists
+            if isinstance(inner, ast.Name) and lab is False:
+                new_fv.add(inner.id)
+            if isinstance(inner, ast.Name) and lab is True:
+                new_fv.discard(inner.id)
+            if lab is True:
+                if isinstance(inner, ast.Call) and call_name(inner) == "isinstance":
+                    if inner.args and self.productive_expr(inner.args[0], loc):
+                        gain = 1  # isinstance(x, T) holds only for a non-None (truthy) node
+                elif isinstance(inner, ast.Call):
+                    gain = self.call_amount(inner) if not isinstance(e, ast.NamedExpr) else (self.call_amount(inner) or (1 if self.productive_expr(inner, loc) else 0))
+                elif isinstance(inner, ast.Name) and inner.id in pv:
+                    gain = 1
+                elif isinstance(inner, ast.Compare) and len(inner.ops) == 1 and isinstance(inner.comparators[0], ast.Constant) and inner.comparators[0].value is None and isinstance(inner.ops[0], ast.IsNot):
+                    if self.productive_expr(inner.left, loc):
+                        gain = 1
+                elif isinstance(inner, ast.Compare) and len(inner.ops) == 1 and isinstance(inner.ops[0], ast.NotEq) and self._index_cmp(inner):
+                    gain = 1
+                elif isinstance(inner, ast.Call) and call_name(inner) == "isinstance" and inner.args and self.productive_expr(inner.args[0], loc):
+                    gain = 1  # isinstance(x, T) is true only for a non-None (truthy) node
+                elif isinstance(inner, (ast.BoolOp, ast.IfExp)) and self.productive_expr(inner, loc):
+                    gain = 1
+                elif isinstance(inner, ast.Call) is False and isinstance(inner, ast.Attribute) is False and self.productive_expr(inner, loc) and not isinstance(inner, ast.Constant):
+                    gain = 1
+            elif lab is False:
+                if isinstance(inner, ast.Compare) and len(inner.ops) == 1 and isinstance(inner.comparators[0], ast.Constant) and inner.comparators[0].value is None and isinstance(inner.ops[0], ast.Is):
+                    if self.productive_expr(inner.left, loc):
+                        gain = 1
+                elif isinstance(inner, ast.Compare) and len(inner.ops) == 1 and isinstance(inner.ops[0], ast.Eq) and self._index_cmp(inner):
+                    gain = 1  # explicit progress check: `saved_index == self._index` is false => the cursor moved
+            if gain == 0 and isinstance(inner, ast.Call) and curr is not None and lab is True:
+                pass
+            if gain == 0 and lab is not None and isinstance(inner, ast.Call) and self._first_match_gain(inner, curr):
+                gain = 1 if lab is True else 0
+            if gain > 0:
+                new_curr = None
+            elif isinstance(inner, ast.Call) and peek is None and self._moves_cursor(inner):
+                new_curr = None
+            return (min(2, count + gain), frozenset(new_pv), frozenset(new_fv), new_curr, saved)
+        if n.kind in ("stmt", "with", "for"):
+            st = n.ast
+            if isinstance(st, (ast.FunctionDef, ast.AsyncFunctionDef, ast.ClassDef)):
+                return state
+            if n.kind == "for":
+                new_pv = set(pv)
+                new_fv = set(fv)
+                for x in ast.walk(st.target):
+                    if isinstance(x, ast.Name):
+                        new_pv.discard(x.id)
+                        new_fv.discard(x.id)
+                return (count, frozenset(new_pv), frozenset(new_fv), curr, saved)
+            gain, reset = 0, False
+            reset_to = 0
+            moved = False
+            for c in _top_level_calls(st):
+                cn = call_name(c) or ""
+                if curr is not None and self._first_match_gain(c, curr) and gain == 0:
+                    gain += 1  # the callee starts by matching the token we have just peeked
+                    continue
+                if curr is not None and cn == "self._advance_any" and gain == 0:
+                    ig = kwarg(c, "ignore_reserved") or (c.args[0] if c.args else None)
+                    if isinstance(ig, ast.Constant) and ig.value is True:
+                        gain += 1  # _advance_any(ignore_reserved=True) always advances when a current token exists
+                        continue
+                if cn.startswith("self.") and self._moves_cursor(c):
+                    moved = True
+                if cn == "self._advance":
+                    k = 1
+                    if c.args:
+                        a = c.args[0]
+                        if isinstance(a, ast.Constant) and isinstance(a.value, int):
+                            k = a.value
+                        elif isinstance(a, ast.UnaryOp) and isinstance(a.op, ast.USub) and isinstance(a.operand, ast.Constant):
+                            k = -a.operand.value
+                        else:
+                            k = 0
+                    gain += k
+                elif cn == "self._advance_chunk":
+                    gain += 1
+                elif cn == "self._retreat":
+                    a = c.args[0] if c.args else None
+                    if isinstance(a, ast.BinOp) and isinstance(a.op, ast.Sub) and norm(a.left) == "self._index" and isinstance(a.right, ast.Constant):
+                        gain -= a.right.value
+                    else:
+                        reset = True
+                        sv = dict(saved)
+                        if isinstance(a, ast.Name) and a.id in sv:
+                            reset_to = min(count, sv[a.id])  # back to a position at which that much had been consumed
+            new_fv = set(fv)
+            new_curr = None if (gain != 0 or reset or moved) else curr
+            if reset:
+                count2 = max(reset_to, max(0, min(2, gain)) if gain > 0 else 0)
+                new_pv = set(pv) if count2 >= 1 else set()
+            else:
+                count2 = max(0, min(2, count + gain))
+                new_pv = set(pv) if gain >= 0 else set()
+            # assignments
+            tv: list[tuple[ast.AST, ast.AST | None]] = []
+            if isinstance(st, ast.Assign):
+                tv = [(tg, st.value) for tg in st.targets]
+            elif isinstance(st, ast.AnnAssign) and st.value is not None:
+                tv = [(st.target, st.value)]
+            elif isinstance(st, ast.AugAssign):
+                tv = [(st.target, None)]
+            for tg, val in tv:
+                if isinstance(tg, ast.Name):
+                    new_fv.discard(tg.id)
+                    if isinstance(val, ast.Constant) and not val.value:
+                        new_fv.add(tg.id)
+                    was = tg.id in new_pv
+                    new_pv.discard(tg.id)
+                    if val is not None and (count2 >= 1 and not reset or self.productive_expr(val, {v: True for v in new_pv | ({tg.id} if was else set())})):
+                        new_pv.add(tg.id)
+                    elif val is None and (count2 >= 1 or was):
+                        new_pv.add(tg.id)
+                else:
+                    # tuple unpack from a table-dispatched parser: `key, expression = parser(self)`
+                    prod_idx = self._tuple_dispatch_productive(st, val) if isinstance(tg, ast.Tuple) and val is not None else set()
+                    for i_, x in enumerate(tg.elts if isinstance(tg, (ast.Tuple, ast.List)) else []):
+                        if isinstance(x, ast.Name):
+                            new_pv.discard(x.id)
+                            new_fv.discard(x.id)
+                            if i_ in prod_idx or count2 >= 1:
+                                new_pv.add(x.id)
+                    if not isinstance(tg, (ast.Tuple, ast.List)):
+                        for x in ast.walk(tg):
+                            if isinstance(x, ast.Name) and isinstance(x.ctx, ast.Store):
+                                new_pv.discard(x.id)
+                                new_fv.discard(x.id)
+            # growing a collection: `v.append(x)` keeps "v truthy => consumed" only if something was consumed or x is productive
+            for c in ast.walk(st):
+                if isinstance(c, ast.Call) and isinstance(c.func, ast.Attribute) and isinstance(c.func.value, ast.Name) and c.func.attr in ("append", "extend", "insert", "add", "update"):
+                    v_ = c.func.value.id
+                    if v_ in new_pv and count2 < 1:
+                        arg_ok = bool(c.args) and all(self.productive_expr(a_, {x: True for x in new_pv}) for a_ in c.args)
+                        if not arg_ok:
+                            new_pv.discard(v_)
+            # walrus inside statements
+            for x in ast.walk(st):
+                if isinstance(x, ast.NamedExpr) and isinstance(x.target, ast.Name):
+                    new_pv.discard(x.target.id)
+                    new_fv.discard(x.target.id)
+                    if count2 >= 1 or self.productive_expr(x.value, {v: True for v in new_pv}):
+                        new_pv.add(x.target.id)
+            new_saved = saved
+            for tg, val in tv:
+                if isinstance(tg, ast.Name) and val is not None and norm(val) == "self._index":
+                    new_saved = frozenset({(k, v_) for k, v_ in new_saved if k != tg.id} | {(tg.id, count2)})
+                elif isinstance(tg, ast.Name):
+                    new_saved = frozenset((k, v_) for k, v_ in new_saved if k != tg.id)
+            return (count2, frozenset(new_pv), frozenset(new_fv), new_curr, new_saved)
+        return state
+
+    # ---- helpers for peek / first-match / table dispatch ------------------------------------------
+    strict_errors = False
+
+    @staticmethod
+    def _peek_token(e: ast.AST) -> str | None:
+        """T for `self._match(TokenType.T, advance=False)`"""
+        if isinstance(e, ast.Call) and call_name(e) == "self._match" and e.args:
+            adv = kwarg(e, "advance")
+            if adv is None and len(e.args) >= 2:
+                adv = e.args[1]
+            if isinstance(adv, ast.Constant) and adv.value is False:
+                a = e.args[0]
+                if isinstance(a, ast.Attribute) and isinstance(a.value, ast.Name) and a.value.id == "TokenType":
+                    return a.attr
+        return None
+
+    @staticmethod
+    def _moves_cursor(c: ast.Call) -> bool:
+        cn = call_name(c) or ""
+        if not cn.startswith(("self.", "super().")):
+            # `parser(self)` / callables taking self
+            return any(isinstance(a, ast.Name) and a.id == "self" for a in c.args)
+        name = cn.split(".")[-1]
+        if name in ("raise_error", "expression", "validate_expression", "_find_sql", "_is_connected", "_warn_unsupported"):
+            return False
+        if name.startswith("_match"):
+            adv = kwarg(c, "advance")
+            return not (isinstance(adv, ast.Constant) and adv.value is False)
+        return name.startswith(("_parse", "_advance", "_retreat", "_try_parse"))
+
+    def first_match(self, name: str, call: ast.Call | None = None) -> str | None:
+        """token T such that every definition of `name`, called with this call's explicit arguments and
+        otherwise defaults, begins by testing self._match(TokenType.T) before any other cursor operation"""
+        cache = self.__dict__.setdefault("_fm_cache", {})
+        passed = tuple(sorted(f"{kw.arg}={kw.value.value!r}" if isinstance(kw.value, ast.Constant) else kw.arg for kw in call.keywords if kw.arg)) if call is not None else ()
+        npos = len(call.args) if call is not None else 0
+        key = (name, passed, npos)
+        if key in cache:
+            return cache[key]
+        toks: set[str | None] = set()
+        for c, md in self.defs.get(name, []):
+            a = md.args
+            pos = [x for x in a.args if x.arg != "self"]
+            names_defaults = list(zip([x.arg for x in pos][len(pos) - len(a.defaults):], a.defaults)) + list(zip([x.arg for x in a.kwonlyargs], a.kw_defaults))
+            given = {kw.arg for kw in (call.keywords if call is not None else []) if kw.arg} | {x.arg for x in pos[:npos]}
+            falsy = {nm for nm, d in names_defaults if isinstance(d, ast.Constant) and not d.value and nm not in given}
+            truthy = {kw.arg for kw in (call.keywords if call is not None else []) if kw.arg and isinstance(kw.value, ast.Constant) and kw.value.value is True}
+            g = self.cfg(md)
+            found: set[str | None] = set()
+            seen = set()
+            stack = [g.entry]
+            while stack:
+                n = stack.pop()
+                if n in seen:
+                    continue
+                seen.add(n)
+                if n is g.exit or n is g.raise_exit:
+                    found.add(None)
+                    continue
+                for succ, lab in n.succ:
+                    if n.kind == "cond" and isinstance(n.ast, ast.Name) and n.ast.id in falsy and lab is True:
+                        continue
+                    if n.kind == "cond" and isinstance(n.ast, ast.Name) and n.ast.id in truthy and lab is False:
+                        continue
+                    if n.kind == "cond" and isinstance(n.ast, ast.Call):
+                        cn = call_name(n.ast) or ""
+                        if cn == "self._match_set" and len(n.ast.args) == 1 and not n.ast.keywords and isinstance(n.ast.args[0], (ast.Tuple, ast.Set, ast.List)) and all(
+                            isinstance(x, ast.Attribute) and isinstance(x.value, ast.Name) and x.value.id == "TokenType" for x in n.ast.args[0].elts
+                        ):
+                            found.add("set:" + ",".join(sorted(x.attr for x in n.ast.args[0].elts)))
+                            break
+                        if cn == "self._match" and n.ast.args and not any(kw.arg == "advance" for kw in n.ast.keywords) and len(n.ast.args) == 1:
+                            a0 = n.ast.args[0]
+                            if isinstance(a0, ast.IfExp) and isinstance(a0.test, ast.Name) and a0.test.id in falsy:
+                                a0 = a0.orelse  # `TokenType.A if <falsy parameter> else TokenType.B`
+                            found.add(a0.attr if isinstance(a0, ast.Attribute) and isinstance(a0.value, ast.Name) and a0.value.id == "TokenType" else None)
+                            break
+                        if self._moves_cursor(n.ast):
+                            found.add(None)
+                            break
+                    if n.kind in ("stmt", "with") and n.ast is not None:
+                        tl = _top_level_calls(n.ast)
+                        mv = [x for x in tl if self._moves_cursor(x)]
+                        if mv:
+                            x0 = mv[0]
+                            if call_name(x0) == "self._match" and len(x0.args) == 1 and not x0.keywords and isinstance(x0.args[0], ast.Attribute) and isinstance(x0.args[0].value, ast.Name) and x0.args[0].value.id == "TokenType":
+                                found.add(x0.args[0].attr)
+                            else:
+                                found.add(None)
+                            break
+                    stack.append(succ)
+            toks |= found
+        res = next(iter(toks)) if len(toks) == 1 and None not in toks else None
+        cache[key] = res
+        return res
+
+    def _first_match_gain(self, c: ast.Call, curr: str | None) -> bool:
+        if curr is None or curr.startswith("<"):
+            return False
+        if curr.startswith("tbl:") and (call_name(c) or "") == "self._match":
+            return False
+        cn = call_name(c) or ""
+        if not cn.startswith("self."):
+            return False
+        name = cn[5:]
+        if name == "_match" and c.args and not c.keywords and len(c.args) == 1:
+            a0 = c.args[0]
+            return isinstance(a0, ast.Attribute) and a0.attr == curr
+        if name.startswith("_parse"):
+            fm = self.first_match(name, c)
+            if fm is None:
+                return False
+            if fm == curr:
+                return True
+            if fm.startswith("set:"):
+                toks = set(fm[4:].split(","))
+                if curr.startswith("tbl:"):
+                    # the peeked table must be a subset of the callee's first match set in every parser class (S2)
+                    from ..facts import facts as _facts
+
+                    fx = _facts(self.ctx.repo)
+                    tbl = curr[4:]
+                    tables = [set(d["parser_tables"].get(tbl, ["<missing>"])) for d in fx["dialects"].values()]
+                    return bool(tables) and all(t_ <= toks for t_ in tables)
+                return curr in toks
+        return False
+
+    def _tuple_dispatch_productive(self, st: ast.stmt, val: ast.AST) -> set[int]:
+        """`k, e = parser(self)` where parser = self.TABLE[...] in the same function: indexes i such that in every
+        TABLE literal of every parser class each value is a lambda returning a tuple whose i-th element is productive"""
+        if not (isinstance(val, ast.Call) and isinstance(val.func, ast.Name) and len(val.args) == 1 and isinstance(val.args[0], ast.Name) and val.args[0].id == "self"):
+            return set()
+        table = self.__dict__.setdefault("_local_tables", {}).get(id(st))
+        if table is None:
+            return set()
+        out: set[int] | None = None
+        for c in self.classes:
+            lit = c.body_assigns().get(table)
+            if not isinstance(lit, ast.Dict):
+                continue
+            for k_, v in zip(lit.keys, lit.values):
+                if k_ is None:
+                    continue  # **Parent.TABLE: the parent's literal is checked on its own class
+                if not (isinstance(v, ast.Lambda) and isinstance(v.body, ast.Tuple)):
+                    return set()
+                key_tok = k_.attr if isinstance(k_, ast.Attribute) and isinstance(k_.value, ast.Name) and k_.value.id == "TokenType" else None
+                # the table is indexed with the *current* token, so inside the lambda the current token is the key
+                idxs = {
+                    i for i, el in enumerate(v.body.elts)
+                    if self.productive_expr(el, {}) or (isinstance(el, ast.Call) and self._first_match_gain(el, key_tok))
+                }
+                out = idxs if out is None else out & idxs
+        return out or set()
+
+
+    @staticmethod
+    def _index_cmp(e: ast.Compare) -> bool:
+        """`saved == self._index` / `saved == self._curr` (a local compared with the live cursor)"""
+        l, r = norm(e.left), norm(e.comparators[0])
+        for live in ("self._index", "self._curr"):
+            if (l == live) != (r == live) and (isinstance(e.left, ast.Name) or isinstance(e.comparators[0], ast.Name)):
+                return True
+        return False
+
+    @staticmethod
+    def _meet(a: tuple, b: tuple) -> tuple:
+        """state invariant: `count tokens consumed, or (if count == 0) the current token is curr`.
+        A path that already consumed satisfies any peek fact vacuously, so the fact of the zero-count side survives."""
+        if a[0] >= 1 and b[0] >= 1:
+            curr = a[3] if a[3] == b[3] else None
+        elif a[0] >= 1:
+            curr = b[3]
+        elif b[0] >= 1:
+            curr = a[3]
+        else:
+            curr = a[3] if a[3] == b[3] else None
+        sa, sb = dict(a[4]), dict(b[4])
+        saved = frozenset((k, min(sa[k], sb[k])) for k in sa.keys() & sb.keys())
+        return (min(a[0], b[0]), a[1] & b[1], a[2] & b[2], curr, saved)
+
+    def edge_gain(self, n: Node, lab, locals_: dict[str, bool]) -> tuple[int, bool]:
+        o = self.transfer(n, lab, (0, frozenset(k for k, v in locals_.items() if v), frozenset(), None, frozenset()))
+        return (o[0] if o else 0), False
+
+    def flow(self, g: CFG, start: Node, locals_: dict[str, bool], stop_at: Node | None = None, init_pv: frozenset = frozenset(), falsy: frozenset = frozenset(), init_fv: frozenset = frozenset()):
+        """forward dataflow from `start` with state (0, init_pv). Edges into `stop_at` are recorded, not propagated.
+        Returns (IN, back) where IN maps node -> state and back lists (node, label, state-on-edge)."""
+        IN: dict[Node, tuple] = {start: (0, init_pv, init_fv, None, frozenset())}
+        back: list[tuple[Node, object, tuple]] = []
+        # record which table a local `parser = self.T[...]` comes from, per statement using it
+        lt = self.__dict__.setdefault("_local_tables", {})
+        fn_node = g.func
+        if id(fn_node) not in self.__dict__.setdefault("_lt_done", set()):
+            self._lt_done.add(id(fn_node))
+            tabs: dict[str, str] = {}
+            for st_ in ast.walk(fn_node):
+                if isinstance(st_, ast.Assign) and len(st_.targets) == 1 and isinstance(st_.targets[0], ast.Name) and isinstance(st_.value, ast.Subscript) and is_self_attr(st_.value.value):
+                    tabs[st_.targets[0].id] = st_.value.value.attr
+            for st_ in ast.walk(fn_node):
+                if isinstance(st_, ast.Assign) and isinstance(st_.value, ast.Call) and isinstance(st_.value.func, ast.Name) and st_.value.func.id in tabs:
+                    lt[id(st_)] = tabs[st_.value.func.id]
+        work = [start]
+        guard = 0
+        while work:
+            n = work.pop()
+            guard += 1
+            if guard > 200000:
+                break
+            s = IN[n]
+            for succ, lab in n.succ:
+                out = self.transfer(n, lab, s, falsy)
+                if out is None:
+                    continue
+                if succ is stop_at:
+                    back.append((n, lab, out))
+                    continue
+                old = IN.get(succ)
+                new = out if old is None else self._meet(old, out)
+                if old is None or new != old:
+                    IN[succ] = new
+                    work.append(succ)
+        return IN, back
+
+    # ---- productive fixpoint -----------------------------------------------------------------------
+    def method_productive(self, c: Cls, md: ast.FunctionDef, passthrough: bool = False, defaults_only: bool = False) -> tuple[bool, str]:
+        g = self.cfg(md)
+        init = frozenset()
+        falsy: frozenset = frozenset()
+        if passthrough:
+            params = [a.arg for a in md.args.args if a.arg != "self"]
+            if not params:
+                return False, "no parameter"
+            init = frozenset({params[0]})
+        if defaults_only:
+            a = md.args
+            pos = [x for x in a.args if x.arg != "self"]
+            if len(a.defaults) < len(pos) or a.vararg or any(d is None for d in a.kw_defaults):
+                return False, "has required parameters"
+            names_defaults = list(zip([x.arg for x in pos][len(pos) - len(a.defaults):], a.defaults)) + list(zip([x.arg for x in a.kwonlyargs], a.kw_defaults))
+            falsy = frozenset(nm for nm, d in names_defaults if isinstance(d, ast.Constant) and not d.value)
+        IN, _ = self.flow(g, g.entry, {}, init_pv=init, falsy=falsy, init_fv=falsy)
+        for n in g.nodes:
+            if n.kind == "stmt" and isinstance(n.ast, ast.Return) and n in IN:
+                v = n.ast.value
+                if v is None:
+                    continue
+                if isinstance(v, ast.Constant) and not v.value:
+                    continue
+                # evaluated per incoming edge (keeps the correlation between "x is falsy" and "the cursor was restored")
+                edge_states = []
+                for p_, lab_ in n.pred:
+                    if p_ in IN:
+                        o_ = self.transfer(p_, lab_, IN[p_], falsy)
+                        if o_ is not None:
+                            edge_states.append(o_)
+                if not edge_states:
+                    edge_states = [IN[n]]
+                all_ok = True
+                for st_ in edge_states:
+                    count, pv, fv, _curr, _saved = st_
+                    if count >= 1:
+                        continue
+                    post = self.transfer(n, None, st_, falsy)
+                    if post is not None and post[0] >= 1:
+                        continue  # the return expression itself consumes (peeked token matched by the callee)
+                    if isinstance(v, ast.Name) and v.id in fv:
+                        continue  # known falsy on this path
+                    if self.productive_expr(v, {x: True for x in pv}):
+                        continue
+                    all_ok = False
+                    break
+                if all_ok:
+                    continue
+                return False, f"{c.name}.{md.name}: `return {norm(v, 50)}` (line {n.lineno}) can be truthy with nothing consumed"
+        return True, ""
+
+    def solve(self) -> None:
+        names = [n for n in self.defs if n.startswith("_parse") or n in ("_advance_any",)]
+        self.PT: dict[str, bool] = {}
+        self.P0: dict[str, bool] = {}
+        for n in self.defs:
+            self.P[n] = n in names or n in AXIOM_PRODUCTIVE
+            self.PT[n] = n in names
+            self.P0[n] = n in names
+        for n in list(MATCH_AMOUNT) + ["_match_text_seq"]:
+            self.P[n] = True
+        self.P["_advance_any"] = True
+        self.P["expression"] = False
+        self.PT["expression"] = False
+        changed = True
+        rounds = 0
+        while changed and rounds < 40:
+            changed = False
+            rounds += 1
+            for n in names:
+                if n in AXIOM_PRODUCTIVE or n == "_advance_any":
+                    continue
+                if self.P.get(n):
+                    for c, md in self.defs[n]:
+                        ok, why = self.method_productive(c, md)
+                        if not ok:
+                            self.P[n] = False
+                            self.why_not[n] = why
+                            changed = True
+                            break
+                if self.PT.get(n):
+                    for c, md in self.defs[n]:
+                        ok, why = self.method_productive(c, md, passthrough=True)
+                        if not ok:
+                            self.PT[n] = False
+                            changed = True
+                            break
+                if self.P0.get(n) and not self.P.get(n):
+                    for c, md in self.defs[n]:
+                        ok, why = self.method_productive(c, md, defaults_only=True)
+                        if not ok:
+                            self.P0[n] = False
+                            self.why_not0 = getattr(self, "why_not0", {})
+                            self.why_not0[n] = why
+                            changed = True
+                            break
+        self.rounds = rounds
+        self.solved = True
+
+
+def _model(ctx: Ctx) -> Model:
+    m = ctx.__dict__.get("_c05_model")
+    if m is None:
+        m = Model(ctx)
+        m.solve()
+        ctx.__dict__["_c05_model"] = m
+    return m
+
+
+def _top_level_calls(st: ast.AST):
+    """calls evaluated unconditionally when statement st executes (not under lambda / comprehension / IfExp branch / BoolOp tail)"""
+    out = []
+
+    def rec(e: ast.AST, cond: bool) -> None:
+        if isinstance(e, (ast.Lambda, ast.ListComp, ast.SetComp, ast.DictComp, ast.GeneratorExp, ast.FunctionDef, ast.ClassDef)):
+            return
+        if isinstance(e, ast.IfExp):
+            rec(e.test, cond)
+            return
+        if isinstance(e, ast.BoolOp):
+            rec(e.values[0], cond)
+            return
+        if isinstance(e, ast.Call) and not cond:
+            out.append(e)
+        for ch in ast.iter_child_nodes(e):
+            rec(ch, cond)
+
+    if isinstance(st, (ast.If, ast.While, ast.For, ast.Try, ast.With)):
+        if isinstance(st, ast.With):
+            for it in st.items:
+                rec(it.context_expr, False)
+        return out
+    rec(st, False)
+    return out
+
+
+def _uses_cursor(node: ast.AST) -> bool:
+    for x in ast.walk(node):
+        if isinstance(x, ast.Attribute) and isinstance(x.value, ast.Name) and x.value.id == "self" and x.attr.startswith(CURSOR_NAMES):
+            return True
+    return False
+
+
+def _loop_heads(g: CFG):
+    for h in g.loop_heads:
+        yield h
+
+
+def rule_a(ctx: Ctx) -> None:
+    ctx.rule(
+        "C05.a",
+        "loop progress: every while-loop of the parser (all parser classes) and tokenizer reaches each back edge with >= 1 token consumed since "
+        "the loop head (consuming-match conditions, unconditional _advance, productive callees), or updates its non-cursor condition variables",
+    )
+    model = _model(ctx)
+    n_prod = sum(1 for k, v in model.P.items() if v and k.startswith("_parse"))
+    n_all = sum(1 for k in model.P if k.startswith("_parse"))
+    ctx.count("parse_methods", n_all)
+    ctx.count("productive_methods", n_prod)
+    ctx.count("fixpoint_rounds", model.rounds)
+    ctx.notes.append("not productive (sample): " + "; ".join(list(model.why_not.values())[:12]))
+    n_loops = 0
+    units: list[tuple[Module, str, ast.AST]] = []
+    for c in model.classes:
+        for name, md in c.methods().items():
+            units.append((c.module, f"{c.key}.{name}", md))
+            for inner in ast.walk(md):
+                if inner is not md and isinstance(inner, (ast.FunctionDef,)):
+                    units.append((c.module, f"{c.key}.{name}.<locals>.{inner.name}", inner))
+    tc = ctx.repo.cls("sqlglot.tokenizer_core", "TokenizerCore")
+    for name, md in tc.methods().items():
+        units.append((tc.module, f"{tc.key}.{name}", md))
+    for m, where, fn in units:
+        loops = [x for x in walk_no_nested(fn) if isinstance(x, ast.While) or (isinstance(x, ast.For) and isinstance(x.iter, ast.Call) and call_name(x.iter) == "iter" and len(x.iter.args) == 2)]
+        if not loops:
+            continue
+        g = model.cfg(fn)
+        locs = model.productive_locals(fn)
+        is_tok = where.startswith("sqlglot.tokenizer_core")
+        for lp in loops:
+            n_loops += 1
+            head = next((h for h in g.loop_heads if h.ast is lp), None)
+            test_txt = norm(lp.test, 90) if isinstance(lp, ast.While) else f"for .. in {norm(lp.iter, 70)}"
+            inst = f"{where}|while {test_txt}|L{lp.lineno - fn.lineno}"
+            if head is None:
+                ctx.fail(m, lp, where, f"while {test_txt}", "internal: loop head not found in CFG")
+                continue
+            if (where, test_txt) in REVIEWED_LOOPS:
+                ctx.ok(inst, {"loop": test_txt, "in": where, "witness": "reviewed: " + REVIEWED_LOOPS[(where, test_txt)]})
+                continue
+            if is_tok:
+                ok, why = _tokenizer_loop_ok(m, fn, lp)
+                if ok:
+                    ctx.ok(inst, {"loop": test_txt, "in": where, "witness": why})
+                else:
+                    ctx.fail(m, lp, where, f"while {test_txt}", f"tokenizer loop without progress witness: {why}")
+                continue
+            # iter(f, sentinel) loops: one call of f per iteration; needs f productive
+            if isinstance(lp, ast.For):
+                f0 = lp.iter.args[0]
+                if model.productive_callable(f0, locs):
+                    ctx.ok(inst, {"loop": test_txt, "in": where, "witness": "iter(f, sentinel) with productive f"})
+                else:
+                    ctx.fail(m, lp, where, test_txt, f"`for .. in iter({norm(f0, 40)}, sentinel)` repeats while the callee returns a non-sentinel value, but the callee is not proven to consume a token when it does")
+                continue
+            cursor = _uses_cursor(lp)
+            if not cursor:
+                ok, why = _structural_variant(m, fn, lp, g, head)
+                if ok:
+                    ctx.ok(inst, {"loop": test_txt, "in": where, "witness": "non-cursor loop: " + why})
+                else:
+                    ctx.fail(m, lp, where, f"while {test_txt}", f"non-cursor loop without a recognised variant: {why}")
+                continue
+            IN, back = model.flow(g, head, locs, stop_at=head)
+            natural = {id(a) for a, h in g.back_edges if h is head}
+            back = [(n, lab, s) for n, lab, s in back if id(n) in natural]
+            bad = [(n, lab, s) for n, lab, s in back if s[0] < 1]
+            if not bad:
+                ctx.ok(inst, {"loop": test_txt, "in": where, "witness": f"all {len(back)} back edges reached with >= 1 token consumed"})
+                continue
+            # maybe the loop variable is structural although the body touches the cursor
+            ok2, why2 = _structural_variant(m, fn, lp, g, head)
+            has_local_cond = not isinstance(lp.test, ast.Constant) and any(isinstance(y, ast.Name) for y in ast.walk(lp.test)) and not _uses_cursor(lp.test)
+            if ok2 and has_local_cond:
+                ctx.ok(inst, {"loop": test_txt, "in": where, "witness": "condition variable updated on every back-edge path: " + why2})
+                continue
+            flag = _one_shot_flag(model, g, head, lp, natural)
+            if flag:
+                ctx.ok(inst, {"loop": test_txt, "in": where, "witness": f"the only non-consuming iteration needs flag `{flag}`, which the loop body clears unconditionally (at most one such iteration)"})
+                continue
+            n0, lab0, _ = bad[0]
+            path = _zero_path(model, g, head, locs)
+            ctx.fail(m, lp, where, f"while {test_txt}",
+                     f"a path through the loop body returns to the loop head without consuming a token (back edge from line {n0.lineno}: "
+                     f"{norm(n0.ast, 60) if n0.ast is not None else ''}; zero-consumption path via lines {path}): on such input the parser never terminates")
+    ctx.count("loops", n_loops)
+    ctx.min_instances("loops", n_loops, 90)
+
+
+def _one_shot_flag(model: Model, g: CFG, head: Node, lp: ast.While, natural: set[int]) -> str | None:
+    """a local flag v such that (i) the loop body contains the unconditional statement `v = False`, (ii) v is assigned
+    nowhere else inside the loop, (iii) with `v` assumed false every back edge is reached after consumption"""
+    cands = []
+    for i, st in enumerate(lp.body):
+        if isinstance(st, ast.Assign) and len(st.targets) == 1 and isinstance(st.targets[0], ast.Name) and isinstance(st.value, ast.Constant) and st.value.value is False:
+            if not any(isinstance(x, ast.Continue) for prev in lp.body[:i] for x in ast.walk(prev)):
+                cands.append((st.targets[0].id, st))
+    for v, st in cands:
+        others = [x for x in ast.walk(lp) if isinstance(x, ast.Name) and x.id == v and isinstance(x.ctx, ast.Store) and x is not st.targets[0]]
+        if others:
+            continue
+        IN, back = model.flow(g, head, {}, stop_at=head, falsy=frozenset({v}))
+        back = [(n, lab, s) for n, lab, s in back if id(n) in natural]
+        if back and all(s[0] >= 1 for _, _, s in back):
+            return v
+    return None
+
+
+def _zero_path(model: Model, g: CFG, head: Node, locs: dict[str, bool]) -> list[int]:
+    IN, _ = model.flow(g, head, locs, stop_at=head)
+    seen = {head}
+    stack: list[tuple[Node, list[Node]]] = [(head, [])]
+    while stack:
+        n, path = stack.pop()
+        for s, lab in n.succ:
+            st_in = IN.get(n, (0, frozenset(), frozenset(), None, frozenset()))
+            o = model.transfer(n, lab, (0, st_in[1], st_in[2], st_in[3], frozenset()))
+            if o is None or o[0] > 0:
+                continue
+            if s is head:
+                lines = []
+                for x in path + [n]:
+                    if x.lineno and (not lines or lines[-1] != x.lineno):
+                        lines.append(x.lineno)
+                return lines[:14]
+            if s in seen or s is g.exit or s is g.raise_exit:
+                continue
+            seen.add(s)
+            stack.append((s, path + [n]))
+    return []
+
+
+def _assigned_names(st: ast.AST) -> set[str]:
+    out = set()
+    for x in ast.walk(st):
+        if isinstance(x, ast.Name) and isinstance(x.ctx, ast.Store):
+            out.add(x.id)
+        if isinstance(x, ast.AugAssign) and isinstance(x.target, ast.Name):
+            out.add(x.target.id)
+        if isinstance(x, ast.Call) and isinstance(x.func, ast.Attribute) and isinstance(x.func.value, ast.Name) and x.func.attr in ("pop", "popleft", "append", "extend", "remove", "clear", "popitem", "add", "discard", "update"):
+            out.add(x.func.value.id)
+        if isinstance(x, ast.Attribute) and isinstance(x.ctx, ast.Store) and isinstance(x.value, ast.Name) and x.value.id == "self":
+            out.add("self." + x.attr)
+    return out
+
+
+def _structural_variant(m: Module, fn: ast.AST, lp: ast.While, g: CFG, head: Node, self_calls_count: bool = False) -> tuple[bool, str]:
+    """every back-edge path modifies a variable the loop condition reads (necessary for a variant)"""
+    if isinstance(lp.test, ast.Constant):
+        # while True: needs a break/return/raise reachable and the body must change something it tests before breaking
+        exits = [x for x in ast.walk(lp) if isinstance(x, (ast.Break, ast.Return, ast.Raise))]
+        if not exits:
+            return False, "`while True` without break/return/raise"
+        cond_vars: set[str] = set()
+        for x in ast.walk(lp):
+            if isinstance(x, ast.If):
+                for y in ast.walk(x.test):
+                    if isinstance(y, ast.Name):
+                        cond_vars.add(y.id)
+                    if isinstance(y, ast.Attribute) and isinstance(y.value, ast.Name) and y.value.id == "self":
+                        cond_vars.add("self." + y.attr)
+    else:
+        cond_vars = {y.id for y in ast.walk(lp.test) if isinstance(y, ast.Name)} | {
+            "self." + y.attr for y in ast.walk(lp.test) if isinstance(y, ast.Attribute) and isinstance(y.value, ast.Name) and y.value.id == "self"
+        }
+    if not cond_vars:
+        return False, "condition reads no variable"
+    # forward must-analysis from head: has a condition variable been modified?
+    IN: dict[Node, bool] = {head: False}
+    work = [head]
+    back: list[bool] = []
+    while work:
+        n = work.pop()
+        s = IN[n]
+        mod = s
+        if n is not head and n.ast is not None and n.kind in ("stmt", "for", "with") and not isinstance(n.ast, (ast.FunctionDef, ast.ClassDef)):
+            tgt = n.ast.target if n.kind == "for" else n.ast
+            if _assigned_names(tgt) & cond_vars:
+                mod = True
+            # tokenizer only: calling self._advance() moves _current/_peek/_char/_end
+            if self_calls_count and any(v.startswith("self.") for v in cond_vars) and any(isinstance(c, ast.Call) and (call_name(c) or "") == "self._advance" for c in ast.walk(tgt)):
+                mod = True
+        if n.kind == "cond" and n.ast is not None and any(isinstance(x, ast.NamedExpr) and x.target.id in cond_vars for x in ast.walk(n.ast)):
+            mod = True
+        for succ, lab in n.succ:
+            if succ is head:
+                back.append(mod)
+                continue
+            old = IN.get(succ)
+            new = mod if old is None else (old and mod)
+            if old is None or new != old:
+                IN[succ] = new
+                work.append(succ)
+    if back and all(back):
+        return True, f"every back-edge path updates one of {sorted(cond_vars)[:6]}"
+    if not back:
+        return True, "loop body always leaves the loop (no back edge)"
+    return False, f"some back-edge path leaves the condition variables {sorted(cond_vars)[:6]} untouched"
+
+
+def _bounded_counter(fn: ast.AST, lp: ast.While, g: CFG, head: Node) -> str | None:
+    """every back-edge path increments a local by a positive constant, and the loop leaves (break) when an
+    expression derived from that local reaches a bound"""
+    incs = [x for x in lp.body if isinstance(x, ast.AugAssign) and isinstance(x.op, ast.Add) and isinstance(x.target, ast.Name) and isinstance(x.value, ast.Constant) and isinstance(x.value.value, int) and x.value.value > 0]
+    for inc in incs:
+        v = inc.target.id
+        i = lp.body.index(inc)
+        if any(isinstance(x, ast.Continue) for prev in lp.body[:i] for x in ast.walk(prev)):
+            continue
+        derived = {v}
+        for st in lp.body:
+            if isinstance(st, ast.Assign) and len(st.targets) == 1 and isinstance(st.targets[0], ast.Name) and any(isinstance(x, ast.Name) and x.id in derived for x in ast.walk(st.value)):
+                derived.add(st.targets[0].id)
+        for st in ast.walk(lp):
+            if isinstance(st, ast.If) and isinstance(st.test, ast.Compare) and len(st.test.ops) == 1 and isinstance(st.test.ops[0], (ast.Lt, ast.LtE, ast.Gt, ast.GtE)):
+                names = {x.id for x in ast.walk(st.test) if isinstance(x, ast.Name)}
+                if names & derived and (any(isinstance(x, ast.Break) for b in st.orelse for x in ast.walk(b)) or any(isinstance(x, ast.Break) for b in st.body for x in ast.walk(b))):
+                    return f"counter `{v}` grows by {inc.value.value} on every iteration and the loop breaks on the bound test `{norm(st.test)}`"
+    return None
+
+
+def _tokenizer_loop_ok(m: Module, fn: ast.AST, lp: ast.While) -> tuple[bool, str]:
+    g = CFG(fn)
+    head = next((h for h in g.loop_heads if h.ast is lp), None)
+    if head is None:
+        return False, "loop head not found"
+    # progress events: self._advance(...), writes to self._current, increments of a local cursor alias, calls to scanners that advance
+    IN: dict[Node, bool] = {head: False}
+    work = [head]
+    back: list[tuple[Node, bool]] = []
+    aliases = {st.targets[0].id for st in walk_no_nested(fn) if isinstance(st, ast.Assign) and len(st.targets) == 1 and isinstance(st.targets[0], ast.Name) and is_self_attr(st.value, "_current")}
+    aliases |= {"i", "pos", "current", "_current"}
+    # local cursors derived from the offset (e.g. `end = self._current + 1`, advanced by `end += 1`)
+    aliases |= {
+        st.targets[0].id for st in walk_no_nested(fn)
+        if isinstance(st, ast.Assign) and len(st.targets) == 1 and isinstance(st.targets[0], ast.Name) and any(is_self_attr(x, "_current") for x in ast.walk(st.value))
+    }
+
+    def progresses(n: Node, lab) -> bool:
+        if n.ast is None or n.kind not in ("stmt", "cond", "with"):
+            return False
+        for x in ast.walk(n.ast):
+            if isinstance(x, ast.Call):
+                cn = call_name(x) or ""
+                if cn in ("self._advance",) and not (x.args and isinstance(x.args[0], ast.Constant) and x.args[0].value == 0):
+                    return True
+                if cn.startswith("self._scan") or cn.startswith("self._extract") or cn in ("self._add",) and False:
+                    return True
+            if isinstance(x, ast.AugAssign) and isinstance(x.op, ast.Add) and (is_self_attr(x.target, "_current") or (isinstance(x.target, ast.Name) and x.target.id in aliases)):
+                return True
+            if isinstance(x, ast.Assign) and any(is_self_attr(t, "_current") for t in x.targets):
+                return True
+        return False
+
+    while work:
+        n = work.pop()
+        s = IN[n]
+        for succ, lab in n.succ:
+            out = s or progresses(n, lab)
+            if succ is head:
+                back.append((n, out))
+                continue
+            old = IN.get(succ)
+            new = out if old is None else (old and out)
+            if old is None or new != old:
+                IN[succ] = new
+                work.append(succ)
+    if not back:
+        return True, "no back edge"
+    if all(b for _, b in back):
+        return True, "every back-edge path advances the scanner (self._advance / _current += k / nested scanner)"
+    cursor_attrs = ("_end", "_peek", "_char", "_current")
+    tainted = {
+        st.targets[0].id for st in walk_no_nested(fn)
+        if isinstance(st, ast.Assign) and len(st.targets) == 1 and isinstance(st.targets[0], ast.Name) and any(is_self_attr(x) and x.attr in cursor_attrs for x in ast.walk(st.value))
+    }
+    cond_reads_scanner = not isinstance(lp.test, ast.Constant) and any(
+        (is_self_attr(x) and x.attr in cursor_attrs) or (isinstance(x, ast.Name) and x.id in tainted) for x in ast.walk(lp.test)
+    )
+    if not cond_reads_scanner:
+        ok, why = _structural_variant(m, fn, lp, g, head, self_calls_count=True)
+        if ok:
+            return True, why
+    bc = _bounded_counter(fn, lp, g, head)
+    if bc:
+        return True, bc
+    n0 = next(n for n, b in back if not b)
+    return False, f"back edge from line {n0.lineno} without advancing"
+
+
+# ------------------------------------------------------------------------------------------ C05.b
+
+
+def rule_b(ctx: Ctx) -> None:
+    ctx.rule(
+        "C05.b",
+        "cursor discipline: _retreat(v) targets are locals saved from self._index; relative backward moves by k are dominated by >= k consumed tokens "
+        "(or credited by table dispatch after a match); _try_parse restores the index in finally",
+    )
+    model = _model(ctx)
+    n_abs = n_rel = 0
+    # which methods are only referenced from parser tables (lambdas / values in class-level dict displays)?
+    direct_calls: dict[str, int] = {}
+    table_refs: dict[str, int] = {}
+    direct_sites: dict[str, list[tuple[Module, ast.Call]]] = {}
+    for c in model.classes:
+        m = c.module
+        for call in m.of_type(ast.Call):
+            cn = call_name(call) or ""
+            if not cn and isinstance(call.func, ast.Attribute) and isinstance(call.func.value, ast.Call) and call_name(call.func.value) == "super":
+                cn = "super()." + call.func.attr
+            if cn.startswith("self.") or cn.startswith("super()."):
+                name = cn.split(".")[-1]
+                f = m.enclosing_func(call)
+                # inside a lambda that is a value of a class-level table?
+                p = m.parent(call)
+                in_table = False
+                while p is not None and not isinstance(p, (ast.FunctionDef, ast.ClassDef)):
+                    if isinstance(p, ast.Lambda):
+                        pp = m.parent(p)
+                        if isinstance(pp, ast.Dict) and f is None:
+                            in_table = True
+                    p = m.parent(p)
+                if in_table:
+                    table_refs[name] = table_refs.get(name, 0) + 1
+                elif cn.startswith("super().") and f is not None and f.name == name:
+                    pass  # an override delegating to its parent runs in the caller's (dispatch) context
+                else:
+                    direct_calls[name] = direct_calls.get(name, 0) + 1
+                    direct_sites.setdefault(name, []).append((m, call))
+
+    _credit_cache: dict[str, int] = {}
+
+    def dispatch_credit(name: str) -> int:
+        """1 if every way of reaching method `name` has consumed a token just before: a parser-table lambda (invoked after a
+        successful match on that table) or a direct call site reached with >= 1 token consumed in its caller"""
+        if name in _credit_cache:
+            return _credit_cache[name]
+        _credit_cache[name] = 0
+        if table_refs.get(name, 0) == 0 and not direct_sites.get(name):
+            return 0
+        for mm, call in direct_sites.get(name, []):
+            f = mm.enclosing_func(call)
+            if f is None:
+                return 0
+            gg = model.cfg(f.node)
+            INN, _ = model.flow(gg, gg.entry, {})
+            nodes = gg.nodes_for(call)
+            if not nodes or min((INN[x][0] for x in nodes if x in INN), default=0) < 1:
+                return 0
+        _credit_cache[name] = 1
+        return 1
+
+    for c in model.classes:
+        m = c.module
+        for name, md in c.methods().items():
+            where = f"{c.key}.{name}"
+            calls = [x for x in ast.walk(md) if isinstance(x, ast.Call) and call_name(x) in ("self._retreat", "self._advance")]
+            if not calls:
+                continue
+            g = None
+            for call in calls:
+                a = call.args[0] if call.args else None
+                cn = call_name(call)
+                rel_k = None
+                if cn == "self._retreat":
+                    if isinstance(a, ast.BinOp) and isinstance(a.op, ast.Sub) and norm(a.left) == "self._index" and isinstance(a.right, ast.Constant):
+                        rel_k = a.right.value
+                    elif isinstance(a, ast.BinOp) and isinstance(a.op, ast.Add) and norm(a.left) == "self._index":
+                        ctx.fail(m, call, where, call, "_retreat to a position ahead of the cursor")
+                        continue
+                elif cn == "self._advance":
+                    if isinstance(a, ast.UnaryOp) and isinstance(a.op, ast.USub) and isinstance(a.operand, ast.Constant):
+                        rel_k = a.operand.value
+                    else:
+                        continue
+                inst = f"{where}|{norm(call)}|L{call.lineno - md.lineno}"
+                if rel_k is None:
+                    n_abs += 1
+                    # absolute: argument must be a local (possibly +/- const) saved from self._index in this or an enclosing function
+                    base = a
+                    if isinstance(a, ast.BinOp) and isinstance(a.op, (ast.Sub,)) and isinstance(a.right, ast.Constant):
+                        base = a.left
+                    if isinstance(a, ast.BinOp) and isinstance(a.op, ast.Add):
+                        ctx.fail(m, call, where, call, f"_retreat({norm(a)}) moves to a computed *forward* position")
+                        continue
+                    if isinstance(base, ast.Name):
+                        saved = [
+                            st for st in ast.walk(md)
+                            if isinstance(st, (ast.Assign, ast.AnnAssign, ast.NamedExpr))
+                            and any(isinstance(t_, ast.Name) and t_.id == base.id for t_ in (st.targets if isinstance(st, ast.Assign) else [st.target]))
+                        ]
+                        okv = bool(saved) and all(
+                            norm(st.value) == "self._index"
+                            or (isinstance(st.value, ast.BinOp) and isinstance(st.value.op, ast.Sub) and norm(st.value.left) == "self._index" and isinstance(st.value.right, ast.Constant))
+                            for st in saved
+                        )
+                        # parameter of the method (e.g. helper taking the saved index)
+                        is_param = base.id in [x.arg for x in md.args.args]
+                        if okv:
+                            ctx.ok(inst, {"retreat": norm(call), "in": where, "target": f"{base.id} := self._index"})
+                        elif is_param and not saved:
+                            ctx.ok(inst, {"retreat": norm(call), "in": where, "target": f"parameter {base.id} (saved by the caller)"})
+                        elif (where, base.id) in REVIEWED_TARGETS:
+                            ctx.ok(inst, {"retreat": norm(call), "in": where, "reviewed": REVIEWED_TARGETS[(where, base.id)]})
+                        else:
+                            ctx.fail(m, call, where, call, f"_retreat target `{base.id}` is not (only) a position saved from self._index: {[norm(s.value, 40) for s in saved][:3]}")
+                    elif isinstance(base, ast.Attribute) and norm(base) == "self._index":
+                        ctx.ok(inst, {"retreat": norm(call), "in": where, "target": "no-op"})
+                    else:
+                        ctx.fail(m, call, where, call, f"_retreat target {norm(a) if a is not None else '<none>'} is not a saved index")
+                    continue
+                n_rel += 1
+                if g is None:
+                    g = model.cfg(md)
+                    locs = model.productive_locals(md)
+                    IN, _ = model.flow(g, g.entry, locs)
+                nodes = g.nodes_for(call)
+                have = min((IN[x][0] for x in nodes if x in IN), default=0)
+                # consumption inside the same statement before the call is not counted; dispatch credit:
+                credit = dispatch_credit(name)
+                prev_guard = False
+                if rel_k == 1:
+                    p_ = m.parent(call)
+                    while p_ is not None and p_ is not md:
+                        if isinstance(p_, ast.If) and any(
+                            isinstance(x, ast.Compare) and isinstance(x.left, (ast.Attribute, ast.Call)) and norm(x.left).startswith("self._prev.") and isinstance(x.comparators[0], (ast.Constant, ast.Attribute))
+                            for x in ast.walk(p_.test)
+                        ):
+                            prev_guard = True
+                        p_ = m.parent(p_)
+                if have + credit >= rel_k:
+                    ctx.ok(inst, {"move": norm(call), "in": where, "needs": rel_k, "consumed_on_all_paths": have, "dispatch_credit": credit})
+                elif prev_guard:
+                    ctx.ok(inst, {"move": norm(call), "in": where, "needs": 1, "witness": "guarded by a test on self._prev (a real previous token exists, so index >= 1)"})
+                elif (where, norm(call)) in REVIEWED_MOVES or (where, f"{norm(call)}@{call.lineno - md.lineno}") in REVIEWED_MOVES:
+                    ctx.ok(inst, {"move": norm(call), "in": where, "reviewed": REVIEWED_MOVES.get((where, norm(call)))})
+                else:
+                    ctx.fail(m, call, where, call,
+                             f"moves the cursor back by {rel_k} but only {have} consumed token(s) (+{credit} dispatch credit) are guaranteed on every path "
+                             f"from the method entry: on other paths the cursor lands before the construct (or before token 0)")
+    ctx.count("absolute_retreats", n_abs)
+    ctx.count("relative_moves", n_rel)
+    ctx.min_instances("absolute_retreats", n_abs, 60)
+    ctx.min_instances("relative_moves", n_rel, 20)
+    # _try_parse restores in finally when the result is falsy
+    tp = ctx.repo.func("sqlglot.parser", "Parser._try_parse")
+    tries = [t for t in walk_no_nested(tp.node) if isinstance(t, ast.Try)]
+    ok = False
+    saved_names = {st.targets[0].id for st in tp.node.body[:3] if isinstance(st, ast.Assign) and len(st.targets) == 1 and isinstance(st.targets[0], ast.Name) and norm(st.value) == "self._index"}
+    for t in tries:
+        for st in t.finalbody:
+            if isinstance(st, ast.If) and "not this" in norm(st.test) and any(isinstance(x, ast.Call) and call_name(x) == "self._retreat" and x.args and norm(x.args[0]) in saved_names for x in ast.walk(st)):
+                ok = True
+    idx_saved = bool(saved_names)
+    if ok and idx_saved:
+        ctx.ok(f"{tp.key}|restores index in finally when the result is falsy")
+    else:
+        ctx.fail(tp.module, tp.node, tp.key, "finally: if not this or retreat: self._retreat(index)", "_try_parse no longer restores the saved index in `finally` for a failed speculative parse")
+
+
+# (where, call) -> reason
+REVIEWED_MOVES: dict[tuple[str, str], str] = {
+    ("sqlglot.parsers.teradata:TeradataParser._parse_index_params", "self._retreat(self._index - 2)"):
+        "guarded by this.args.get('on'), which the base _parse_index_params only sets after matching ON and parsing a table name (>= 2 tokens)",
+}
+# (where, retreat target) -> reason an absolute target that is not a plain saved index is still a past position
+REVIEWED_TARGETS = {
+    ("sqlglot.parsers.bigquery:BigQueryParser._parse_column_ops", "func_index"):
+        "func_index = entry index + 1; the retreat is only executed when super()._parse_column_ops turned `this` into Dot(<x>, <Func>), "
+        "which requires the DOT and the function tokens (>= 2) to have been consumed after entry, so func_index <= current index",
+}
